@@ -5,16 +5,17 @@
 usage: crosstalk.py [-j N] [seed-name ...]     results: seeded/<name>/meta.json["cross"], seeded/CROSSTALK.md
 """
 import glob, json, os, shutil, subprocess, sys, hashlib
+HERE = os.path.dirname(os.path.dirname(os.path.abspath(__file__)))
 from concurrent.futures import ThreadPoolExecutor
 CHECKS = ["C01", "C02", "C03", "C04", "C05", "C06", "C07", "C08", "C09", "C10", "C11", "C12", "C13", "C14"]
 args = sys.argv[1:]
 jobs = 4
 if args[:1] == ["-j"]:
     jobs = int(args[1]); args = args[2:]
-names = args or sorted(os.path.basename(d) for d in glob.glob("/verif/seeded/C*"))
+names = args or sorted(os.path.basename(d) for d in glob.glob(HERE + "/seeded/C*"))
 def sh(c, **k): return subprocess.run(c, shell=True, text=True, capture_output=True, **k)
 def one(name):
-    d = "/verif/seeded/" + name
+    d = HERE + "/seeded/" + name
     wt = "/tmp/evx-mut-" + name
     out = "/tmp/evx-out-" + name
     sh("git -C /repo worktree remove --force %s" % wt); shutil.rmtree(wt, ignore_errors=True)
@@ -26,13 +27,13 @@ def one(name):
             return name, {"error": "patch does not apply"}
         env = dict(os.environ, EVX_REPO=wt, EVX_OUT=out, EVX_JOBS="4")
         for c in CHECKS:
-            r = subprocess.run(["./check", c, "quick"], cwd="/verif", env=env, text=True, capture_output=True)
+            r = subprocess.run(["./check", c, "quick"], cwd=HERE, env=env, text=True, capture_output=True)
             res[c] = r.returncode
     finally:
         sh("git -C /repo worktree remove --force %s" % wt); shutil.rmtree(wt, ignore_errors=True)
         shutil.rmtree(out, ignore_errors=True)
         tag = hashlib.sha256(wt.encode()).hexdigest()[:10]
-        shutil.rmtree("/verif/work/monitor-" + tag, ignore_errors=True)
+        shutil.rmtree(HERE + "/work/monitor-" + tag, ignore_errors=True)
     m = json.load(open(d + "/meta.json")); m["cross"] = res
     json.dump(m, open(d + "/meta.json", "w"), indent=1, ensure_ascii=False)
     print(name, " ".join("%s:%s" % (c[1:], {0: ".", 1: "X", 2: "?"}.get(v, v)) for c, v in res.items()), flush=True)
@@ -42,8 +43,8 @@ with ThreadPoolExecutor(max_workers=jobs) as ex:
 # table over everything recorded so far
 rows = ["# Cross-talk: seeded change x check (quick tier)\n", "X = exit 1 (violation reported), . = exit 0 (silent), ? = inconclusive. C15/C16 legs are not part of this matrix.\n",
         "| seed | " + " | ".join(CHECKS) + " |", "|---|" + "---|" * len(CHECKS)]
-for d in sorted(glob.glob("/verif/seeded/C*")):
+for d in sorted(glob.glob(HERE + "/seeded/C*")):
     m = json.load(open(d + "/meta.json"))
     if "cross" in m and "error" not in m["cross"]:
         rows.append("| %s | " % os.path.basename(d) + " | ".join({0: ".", 1: "X", 2: "?"}.get(m["cross"].get(c), " ") for c in CHECKS) + " |")
-open("/verif/seeded/CROSSTALK.md", "w").write("\n".join(rows) + "\n")
+open(HERE + "/seeded/CROSSTALK.md", "w").write("\n".join(rows) + "\n")
